@@ -142,15 +142,16 @@ class Transcript:
                 orig = getattr(mod, attr)
                 self.patches.append((mod, attr, orig))
                 setattr(mod, attr, self._wrap1(name, orig))
-        if hasattr(C, 'scrypt'):
-            orig = C.scrypt
-            self.patches.append((C, 'scrypt', orig))
+        for mod_ in (C, H):
+            if 'scrypt' in mod_.__dict__:
+                orig = mod_.scrypt
+                self.patches.append((mod_, 'scrypt', orig))
 
-            def sc(password, salt, _o=orig):
-                out = _o(password, salt)
-                self.entries[('scrypt', bytes(password) + bytes(salt))] = out
-                return out
-            C.scrypt = sc
+                def sc(password, salt, _o=orig):
+                    out = _o(password, salt)
+                    self.entries[('scrypt', bytes(password) + bytes(salt))] = out
+                    return out
+                mod_.scrypt = sc
         origv = S.SECP256k1PublicKey.validate
         self.patches.append((S.SECP256k1PublicKey, 'validate', origv))
         tr = self
